@@ -91,6 +91,11 @@ def handle (op : String) (j : Json) : Option Json :=
   | "rev.spec.plain" =>
     let h := histOfJson j
     some (obj [("holds", Json.bool (Spec.Rev.plainResolveOk h (getStrD j "ident") (getStrD j "result")))])
+  | "rev.spec.inbranch" =>
+    let h := histOfJson j
+    match Spec.Rev.branchRev h (getStrD j "label") with
+    | none => some (obj [("undefined", Json.bool true)])
+    | some br => some (obj [("holds", Json.bool (Spec.Rev.downLineage h br (getStrD j "rev")))])
   | "rev.spec.steps" =>
     let h := histOfJson j
     some (obj [("holds", Json.bool (Spec.Rev.stepsDown h (getNatD j "n") (getStrD j "from") (getStr j "to")))])
